@@ -19,10 +19,46 @@ for _tab in (D.keywords, D.operators, D.brackets):
 SPELL.update({"SPACE": " ", "TAB": "\t", "NEWLINE": "\n"})
 
 
+import signal
+
+
+class Hang(BaseException):
+    """raised by the watchdog when the implementation does not come back within the budget"""
+
+
+class watchdog:
+    """wall-clock budget around one call into the implementation (process main thread only)"""
+
+    def __init__(self, seconds=10.0):
+        self.seconds = seconds
+
+    def _fire(self, signum, frame):
+        raise Hang()
+
+    def __enter__(self):
+        try:
+            self.old = signal.signal(signal.SIGALRM, self._fire)
+            signal.setitimer(signal.ITIMER_REAL, self.seconds)
+            self.armed = True
+        except ValueError:       # not in the main thread: no budget
+            self.armed = False
+        return self
+
+    def __exit__(self, *a):
+        if self.armed:
+            signal.setitimer(signal.ITIMER_REAL, 0)
+            signal.signal(signal.SIGALRM, self.old)
+        return False
+
+
 def tok_text(t):
     if t.value is not None:
         return t.value
     return SPELL.get(t.type)
+
+
+LEX_BUDGET = 3.0        # seconds per token: the inputs of the checks are tiny
+HANGS = {"n": 0}        # hangs seen by this process: after a few, callers stop feeding it (circuit breaker)
 
 
 def lex(text, name="file.c"):
@@ -31,6 +67,8 @@ def lex(text, name="file.c"):
     tokens: (type, text, line, col, raw_end)  -- raw_end is the 1-based offset of the first
     character after the token, read from the lexer's own cursor after the token was produced.
     """
+    if HANGS["n"] >= 3:      # circuit breaker: this process has seen the implementation hang three times
+        return dict(tokens=[], diags=[], exc="NotRun", excframe="hang-breaker", end=1)
     f = File(name, text)
     lx = Lexer(f)
     toks = []
@@ -39,11 +77,14 @@ def lex(text, name="file.c"):
     it = iter(lx)
     while True:
         try:
-            t = next(it)
+            with watchdog(LEX_BUDGET):
+                t = next(it)
         except StopIteration:
             break
         except BaseException as e:  # noqa
             exc = type(e).__name__
+            if exc == "Hang":
+                HANGS["n"] += 1
             import traceback
             fr = [x for x in traceback.extract_tb(e.__traceback__) if "/norminette/" in x.filename]
             excframe = fr[-1].name if fr else "?"
@@ -69,7 +110,7 @@ def exc_site(e):
     rules = [x for x in fr if "/rules/" in x.filename]
     via = f"<{os.path.basename(rules[-1].filename)[:-3]}" if rules and rules[-1] is not fr[-1] else ""
     name = type(e).__name__
-    if name == "_TO":
+    if name in ("_TO", "Hang"):
         name = "Hang"
     return f"{name}@{where}{via}"
 
@@ -88,8 +129,11 @@ def run_file(text, name="file.c", debug=0, added=None):
     f = File(name, text)
     out = io.StringIO()
     res = dict(status=None, diags=[], fatal=None, exc=None, stdout="")
+    if HANGS["n"] >= 3:
+        res["exc"] = "NotRun@hang-breaker"
+        return res
     try:
-        with contextlib.redirect_stdout(out):
+        with contextlib.redirect_stdout(out), watchdog(6.0):
             tokens = list(Lexer(f))
             ctx = Context(f, tokens, debug, added)
             reg.run(ctx)
@@ -101,6 +145,8 @@ def run_file(text, name="file.c", debug=0, added=None):
         import traceback
         tb = traceback.extract_tb(e.__traceback__)
         res["exc"] = exc_site(e)
+        if res["exc"].startswith("Hang"):
+            HANGS["n"] += 1
     res["stdout"] = out.getvalue()
     if res["fatal"] is None and res["exc"] is None:
         res["status"] = f.errors.status
@@ -127,8 +173,11 @@ def run_file_traced(text, name="file.c", debug=0, added=None):
     out = io.StringIO()
     res = dict(status=None, diags=[], fatal=None, exc=None, stdout="", events=[], ntokens=0)
     events = res["events"]
+    if HANGS["n"] >= 3:
+        res["exc"] = "NotRun@hang-breaker"
+        return res
     try:
-        with contextlib.redirect_stdout(out):
+        with contextlib.redirect_stdout(out), watchdog(6.0):
             tokens = list(Lexer(f))
             res["ntokens"] = len(tokens)
             ctx = Context(f, tokens, debug, added)
@@ -156,6 +205,8 @@ def run_file_traced(text, name="file.c", debug=0, added=None):
         import traceback
         tb = traceback.extract_tb(e.__traceback__)
         res["exc"] = exc_site(e)
+        if res["exc"].startswith("Hang"):
+            HANGS["n"] += 1
     res["stdout"] = out.getvalue()
     if res["fatal"] is None and res["exc"] is None:
         res["status"] = f.errors.status
